@@ -230,6 +230,49 @@ def replay_class(name, behaviours, tid0, seed):
     return events, tid
 
 
+WHOLE = {"1d": [1.0, 2.0, 3.0], "N2": [(1.0, 1.0), (2.0, 1.0), (3.0, 2.0)], "N3": [(1.0, 1.0, 0.0), (2.0, 1.0, 1.0), (3.0, 2.0, 1.0)],
+         "2N": [(1.0, 1.0), (2.0, 1.0), (3.0, 2.0)]}
+
+
+def integer_positions(name, tid):
+    """whole-number positions as an integer array against the same positions as a float array (an array input is an array
+    input); classes for which 1, 2, 3 is not a valid request with finite values are not judged"""
+    reg = registry.registry()
+    sp = reg[name]
+    if not sp.constructible or sp.cost == "veryslow" or sp.min_n > 3:
+        return []
+    a = to_container(sp, WHOLE[sp.shape], "ndarray")
+    try:
+        with contextlib.redirect_stdout(io.StringIO()):
+            sf = call_quiet(sp.build(), a, sp.t)
+        if not all(np.all(np.isfinite(np.asarray(sf[n]))) for n in sf.dtype.names if np.asarray(sf[n]).dtype.kind == "f"):
+            return []
+    except Exception:
+        return []
+    ev = [{"tid": tid, "op": "Construct", "obj": 1, "cls": name, "mode": "ok", "outcome": "ok"},
+          {"tid": tid, "op": "Call", "obj": 1, "cls": name, "container": "ndarray of integers", "n": 3, "order": "sorted"}]
+    c = ev[1]
+    try:
+        ai = a.astype(int)
+        with contextlib.redirect_stdout(io.StringIO()):
+            si = call_quiet(sp.build(), ai, sp.t)
+        names = list(si.dtype.names)
+        same = names == list(sf.dtype.names) and all(
+            np.allclose(np.asarray(sf[n], float), np.asarray(si[n], float), rtol=1e-12, atol=0.0, equal_nan=True)
+            for n in names if np.asarray(sf[n]).dtype.kind in "fi")
+        cs = coords_of(sp, WHOLE[sp.shape]) if sp.shape != "2N" else [np.array(c_, float) for c_ in zip(*WHOLE[sp.shape])]
+        def eq(field, col):
+            f = np.asarray(si[field], float)
+            return f.shape == col.shape and np.array_equal(f, col)
+        pos_first = len(names) >= len(cs) and all(eq(names[j], cs[j]) for j in range(len(cs)))
+        c.update({"outcome": "ok", "len": int(len(si)), "names": names, "pos_first": bool(pos_first), "echo": bool(pos_first),
+                  "input_unchanged": bool(np.array_equal(ai, a.astype(int))), "same_as_array": bool(same)})
+    except Exception as ex:
+        c.update({"outcome": type(ex).__name__, "len": 0, "echo": False, "pos_first": False, "names": [], "input_unchanged": True, "same_as_array": True})
+    ev.append({"tid": tid, "op": "Reset", "obj": 0, "cls": name})
+    return ev
+
+
 def _worker(args):
     name, behaviours, tid0, seed = args
     try:
